@@ -424,7 +424,10 @@ def run_case(prop, case):
                                "detail": f"thread {ti} query {k} ({via}, contraction #{qi}, {len(q['inputs'])} tensors): {why}",
                                "sig": {"kind": kind, "via": via, "threads": len(case["threads"]),
                                        "sequential": sched.switches == 0}})
-        log.add("ans", ti, k, qi, via, ans.get_ssa_path() if via == "search" else [list(p) for p in ans])
+        try:
+            log.add("ans", ti, k, qi, via, ans.get_ssa_path() if via == "search" else [list(p) for p in ans])
+        except Exception:
+            log.add("ans", ti, k, qi, via, repr(type(ans)))
     for (subq, subtree) in _NESTED["answers"]:
         counters["probe:nested_reentrant_query"] += 1
         why = _check_answer("search", subtree, subq)
